@@ -74,6 +74,20 @@ def main(chk):
                node=arec[0], file=BU, func='get_particles_info', detail_bad='output list recorded as %s' % akv.get('output_property_arrays'),
                detail_ok='parray.output_property_arrays')
 
+    ploop = M.enclosing(arec[0], (ast.For,))
+    for k in arec[0].keywords:
+        if isinstance(k.value, ast.Name):
+            nm = k.value.id
+            mutated = any(isinstance(a, ast.Assign) and isinstance(a.targets[0], ast.Subscript) and U(a.targets[0].value) == nm
+                          for a in ast.walk(gpi))
+            if not mutated:
+                continue
+            created = [a for a in ast.walk(gpi) if isinstance(a, ast.Assign) and U(a.targets[0]) == nm]
+            inside = ploop is not None and bool(created) and all(any(a is x for x in ast.walk(ploop)) for a in created)
+            chk.decide(inside, 'array-record-keys', 'fresh-per-array:' + nm, node=created[0] if created else gpi, file=BU,
+                       func='get_particles_info',
+                       detail_bad='%s is filled per particle array but created once outside the loop: all arrays share (and overwrite) one '
+                                  'dictionary' % nm, detail_ok='created anew for every array')
     # ---- Output.dump plumbing
     ocls = M.find_class(out, 'Output')
     dump = M.find_func(ocls, 'dump')
